@@ -4,6 +4,48 @@ import verif as V
 
 PROP = "C10"
 PROPS = "props/C10.v"
+PROPS_B = "props/C10b.v"   # integration with C12: output clause (valid JSON numbers, NaN -> null, Inf saturated, strconv digits)
+COQCHK_TIMEOUT = 1500
+
+
+def run_coqchk(c):
+    """Thorough tier only: re-check the compiled C10 development (props/C10.vo, props/C10b.vo and everything they
+    depend on, standard library included) with the independent checker coqchk and record its context summary under
+    the evidence key `coqchk`.  A timeout is a note, not a violation; a checker error is a broken obligation."""
+    import time
+    t0 = time.time()
+    cmd = ["coqchk", "-silent", "-o", "-Q", V.COQ, "Verif", "Verif.props.C10", "Verif.props.C10b"]
+    rc, out = V.sh(cmd, cwd=V.COQ, timeout=COQCHK_TIMEOUT)
+    wall = round(time.time() - t0, 1)
+    ev = dict(cmd=" ".join(cmd), rc=rc, wall_s=wall)
+    c.checker_cmds.append(" ".join(cmd))
+    if rc == 124:
+        ev["status"] = "timeout"
+        c.notes.append("coqchk did not finish within %d s (note only)" % COQCHK_TIMEOUT)
+        return ev
+    summary = {}
+    cur = None
+    for line in out.splitlines():
+        m = re.match(r"^\* ([^:]+):\s*(.*)$", line.strip())
+        if m:
+            cur = m.group(1).strip()
+            summary[cur] = m.group(2).strip()
+        elif cur and line.strip() and not line.startswith("="):
+            summary[cur] = (summary[cur] + " " + line.strip()).strip()
+        elif not line.strip():
+            cur = None
+    ev["summary"] = summary
+    if rc != 0:
+        ev["status"] = "error"
+        c.obligations.append(("coqchk props/C10 props/C10b", False, None))
+        c.broken_obligation("coqchk", V.tail(out, 40))
+        return ev
+    ev["status"] = "ok"
+    ax = summary.get("Axioms", "")
+    c.obligations.append(("coqchk props/C10 props/C10b", True, [] if ax == "<none>" else [ax]))
+    if ax != "<none>":
+        c.trusted.append("axioms reported by coqchk for props/C10, props/C10b: " + ax)
+    return ev
 
 
 def classify(line):
@@ -17,12 +59,20 @@ def run(tier, seed):
         "Go int is 64-bit two's complement (wrap64 written into the translated kernels)",
         "math/big is exact integer arithmetic (RBig z / NBig z stand for its results)",
         "strconv.AppendInt / big.Int.Append print the canonical decimal (model print_Z); checked by the enc stream",
-        "float results (inexact division) are compared by class only; float formatting is outside this check",
+        "float results (inexact division) are compared by class only",
+        "output clause (props/C10b.v, derived from the C12 development c12/Encode.v + c12/NumProofs.v): strconv.AppendFloat is a "
+        "variable under the hypotheses fmt_shape (text shape) and fmt_round (digits parse back to the float); that its digits "
+        "are the SHORTEST ones is Go's property and is not proved; the model of encodeFloat64 is tied to encoder.go and "
+        "cli/encoder.go by the C12 check (floats stream), not by this one",
     ]
     ok, log = V.regen(["arith"])
     if not ok:
         c.notes.append("translator failed: " + V.tail(log, 10))
     proved = c.prove(PROPS)
+    proved_b = c.prove(PROPS_B)
+    coqchk_ev = None
+    if tier == "thorough" and proved and proved_b:
+        coqchk_ev = run_coqchk(c)
     # correspondence (impl vs model) and property oracle (impl vs exact integer arithmetic)
     exe_h, hlog = V.build_harness("c10")
     mism, smism, st = [], [], {}
@@ -37,7 +87,7 @@ def run(tier, seed):
             c.broken_correspondence("model-extraction", None, V.tail(mlog, 40))
         if exe_s is None:
             c.broken_correspondence("spec-extraction", None, V.tail(slog, 40))
-        n = 400 if tier == "quick" else 1000000
+        n = 400 if tier == "quick" else 15000
         rc, out, cases, st = V.run_harness("c10", "c10", seed, n, tier)
         if rc != 0:
             c.broken_correspondence("harness-run", None, V.tail(out, 40))
@@ -70,7 +120,10 @@ def run(tier, seed):
             "sqrt(2^63) neighbours, random 1..40-digit integers) x 5 operators + Compare x 9 representation pairs "
             "(int, *big.Int, json.Number); unary neg/abs/length and Marshal for every operand in every representation; "
             "distinct = distinct case lines")
-    return c.finish(rule, extra_cov=dict(harness_stats=st))
+    extra = dict(harness_stats=st)
+    if coqchk_ev is not None:
+        extra["coqchk"] = coqchk_ev
+    return c.finish(rule, extra_cov=extra)
 
 
 def replay(path):
